@@ -9,6 +9,10 @@ hooks_commits = json.load(open(os.path.join(V, 'tools', 'hooks.json'))) if os.pa
 for p in props:
     pid = p['id']
     path = os.path.join(V, 'harness', 'props', pid.lower() + '.py')
+    ready = set(open(os.path.join(V, 'tools', 'ready.txt')).read().split())
+    if pid not in ready and os.path.exists(path):
+        na.append({'property_id': pid, 'reason': 'check under construction (module exists, not yet validated on the unchanged tree); not claimed yet'})
+        continue
     if not os.path.exists(path):
         na.append({'property_id': pid, 'reason': 'check not built yet (design in DESIGN.md section 4 %s); not claimed' % pid})
         continue
